@@ -1,31 +1,44 @@
 --------------------------- MODULE ResolverCache ---------------------------
 (* C16 - the resolver cache never serves stale answers and is safe under concurrency.
-   resolve.go resolveOne / resolveOneNoCache: per-(name,type) cache entry {expiration, result} with an RWMutex, fast path
-   (read lock), slow path (write lock, re-check, upstream fetch, store or remove-on-error); package clock; upstream zone
-   data that changes (generations) and whose responses carry several records with their own TTLs (including records
-   that do not answer the question, e.g. a CNAME); upstream failures.
+   resolve.go resolveOne / resolveOneNoCache. The cache maps a (name,type) key to an ENTRY OBJECT {expiration, result}
+   with its own RWMutex; callers work on the object they got from the map, which need not be the one the map holds
+   later: cache.Get and cache.Add are two steps, a failed query removes whatever is mapped under the key, and the map
+   evicts. So the model keeps object identity: objects 1..nobj, cache[k] = the object mapped under k (0 = none),
+   ent[g] = the object goroutine g works on. Fast path (read lock), slow path (write lock, re-check, upstream fetch,
+   store or remove-on-error); package clock; upstream zone data that changes (generations) and whose responses carry
+   several records with their own TTLs (including records that do not answer the question, e.g. a CNAME); upstream
+   failures; callers whose context ends.
 
-   G goroutines step through the code's critical sections; the environment advances the clock, changes data and
-   toggles upstream failure at any time (time does not advance between an upstream fetch and its store).           *)
+   G goroutines step through the code's critical sections; the environment advances the clock, changes data, toggles
+   upstream failure, ends a caller's context and (when Evicts) evicts entries at any time (time does not advance
+   between an upstream fetch and its store).                                                                        *)
 EXTENDS Integers, Sequences, FiniteSets, TLC
 
 CONSTANTS Keys, G, MaxNow, MaxGen,
-          TtlSets      \* possible TTL lists of a response: Seq of TTL; <<>> = a response without answer records
+          TtlSets,     \* possible TTL lists of a response: Seq of TTL; <<>> = a response without answer records
+          MaxObj,      \* bound on the number of entry objects (model checking only: ObjBound)
+          Evicts       \* BOOLEAN: the map is under capacity pressure (more live keys than its size): entries get evicted
 
 None == [none |-> TRUE]
 VARIABLES now, up,
           ttls,        \* ttls[k][g]: TTLs of the records in the response for generation g of key k (fixed in Init)
           gen,         \* gen[k]: current upstream generation
-          cache,       \* cache[k]: None or [exp, gen, f, min]
-          wlock,       \* wlock[k]: 0 or the goroutine holding the entry's write lock
-          pc, key, got,\* per goroutine
+          nobj,        \* number of entry objects created so far
+          objs,        \* objs[o]: None (zero expiration) or [exp, gen, f, min], o \in 1..nobj
+          okey,        \* okey[o]: the key the object was created for
+          olock,       \* olock[o]: 0 or the goroutine holding the object's write lock
+          cache,       \* cache[k]: 0 or the object mapped under k
+          pc, key, ent, got,   \* per goroutine
           fetched,     \* per goroutine: the response it fetched
           upq,         \* per goroutine: did the current call query upstream?
-          missed,      \* per goroutine: there was no entry for the key when the call looked it up
+          upqAt,       \* per goroutine: ... and when
+          hit,         \* per goroutine: expiration of the valid entry the call found in the map (-1: it found none)
+          cancelled,   \* per goroutine: the caller's context has ended
           last         \* per goroutine: result of the call that just returned [kind, gen, upq, at]
 
-vars == <<now, up, ttls, gen, cache, wlock, pc, key, got, fetched, upq, missed, last>>
+vars == <<now, up, ttls, gen, nobj, objs, okey, olock, cache, pc, key, ent, got, fetched, upq, upqAt, hit, cancelled, last>>
 Gs == 1..G
+Objs == 1..nobj
 
 MinOf(s) == IF s = <<>> THEN 300 ELSE CHOOSE m \in {s[i] : i \in DOMAIN s} : \A i \in DOMAIN s : m <= s[i]
 Valid(e, t) == e # None /\ t < e.exp
@@ -34,99 +47,120 @@ Init ==
   /\ now = 0 /\ up = TRUE
   /\ ttls \in [Keys -> [0..MaxGen -> TtlSets]]
   /\ gen = [k \in Keys |-> 0]
-  /\ cache = [k \in Keys |-> None] /\ wlock = [k \in Keys |-> 0]
-  /\ pc = [g \in Gs |-> "idle"] /\ key = [g \in Gs |-> CHOOSE k \in Keys : TRUE] /\ got = [g \in Gs |-> None]
-  /\ fetched = [g \in Gs |-> None] /\ upq = [g \in Gs |-> FALSE] /\ missed = [g \in Gs |-> FALSE] /\ last = [g \in Gs |-> None]
+  /\ nobj = 0 /\ objs = [o \in {} |-> None] /\ okey = [o \in {} |-> None] /\ olock = [o \in {} |-> 0]
+  /\ cache = [k \in Keys |-> 0]
+  /\ pc = [g \in Gs |-> "idle"] /\ key = [g \in Gs |-> CHOOSE k \in Keys : TRUE] /\ ent = [g \in Gs |-> 0] /\ got = [g \in Gs |-> None]
+  /\ fetched = [g \in Gs |-> None] /\ upq = [g \in Gs |-> FALSE] /\ upqAt = [g \in Gs |-> 0] /\ hit = [g \in Gs |-> -1]
+  /\ cancelled = [g \in Gs |-> FALSE] /\ last = [g \in Gs |-> None]
 
-\* ---- a lookup (resolve.go:451-488)
-Call(g, k) == /\ pc[g] = "idle" /\ pc' = [pc EXCEPT ![g] = "fast"] /\ key' = [key EXCEPT ![g] = k]
-              /\ upq' = [upq EXCEPT ![g] = FALSE] /\ got' = [got EXCEPT ![g] = None]
-              /\ missed' = [missed EXCEPT ![g] = (cache[k] = None)]
-              /\ UNCHANGED <<now, up, ttls, gen, cache, wlock, fetched, last>>
-\* fast path: RLock (blocks while a writer holds the entry), read, RUnlock
-FastRead(g) == /\ pc[g] = "fast" /\ wlock[key[g]] = 0
-               /\ IF Valid(cache[key[g]], now)
-                  THEN pc' = [pc EXCEPT ![g] = "ret"] /\ got' = [got EXCEPT ![g] = [kind |-> "ok", gen |-> cache[key[g]].gen, at |-> now, f |-> cache[key[g]].f]]
+\* ---- a lookup (resolve.go resolveOne)
+Call(g, k) == /\ pc[g] = "idle" /\ pc' = [pc EXCEPT ![g] = "get"] /\ key' = [key EXCEPT ![g] = k]
+              /\ upq' = [upq EXCEPT ![g] = FALSE] /\ got' = [got EXCEPT ![g] = None] /\ cancelled' = [cancelled EXCEPT ![g] = FALSE]
+              /\ hit' = [hit EXCEPT ![g] = -1]
+              /\ UNCHANGED <<now, up, ttls, gen, nobj, objs, okey, olock, cache, ent, fetched, upqAt, last>>
+\* cache.Get
+Get(g) == /\ pc[g] = "get"
+          /\ IF cache[key[g]] # 0
+             THEN /\ ent' = [ent EXCEPT ![g] = cache[key[g]]] /\ pc' = [pc EXCEPT ![g] = "fast"]
+                  /\ hit' = [hit EXCEPT ![g] = IF Valid(objs[cache[key[g]]], now) THEN objs[cache[key[g]]].exp ELSE -1]
+             ELSE /\ pc' = [pc EXCEPT ![g] = "add"] /\ UNCHANGED <<ent, hit>>
+          /\ UNCHANGED <<now, up, ttls, gen, nobj, objs, okey, olock, cache, key, got, fetched, upq, upqAt, cancelled, last>>
+\* v = &cacheValue{}; cache.Add(key, v): a new object, mapped under the key in place of whatever another caller mapped meanwhile
+Add(g) == /\ pc[g] = "add"
+          /\ nobj' = nobj + 1
+          /\ objs' = [o \in 1..(nobj + 1) |-> IF o <= nobj THEN objs[o] ELSE None]
+          /\ okey' = [o \in 1..(nobj + 1) |-> IF o <= nobj THEN okey[o] ELSE key[g]]
+          /\ olock' = [o \in 1..(nobj + 1) |-> IF o <= nobj THEN olock[o] ELSE 0]
+          /\ cache' = [cache EXCEPT ![key[g]] = nobj + 1]
+          /\ ent' = [ent EXCEPT ![g] = nobj + 1] /\ pc' = [pc EXCEPT ![g] = "fast"]
+          /\ UNCHANGED <<now, up, ttls, gen, key, got, fetched, upq, upqAt, hit, cancelled, last>>
+\* fast path: RLock (blocks while a writer holds the object), read, RUnlock
+FastRead(g) == /\ pc[g] = "fast" /\ olock[ent[g]] = 0
+               /\ IF Valid(objs[ent[g]], now)
+                  THEN pc' = [pc EXCEPT ![g] = "ret"] /\ got' = [got EXCEPT ![g] = [kind |-> "ok", gen |-> objs[ent[g]].gen, at |-> now, f |-> objs[ent[g]].f]]
                   ELSE pc' = [pc EXCEPT ![g] = "wantlock"] /\ UNCHANGED got
-               /\ UNCHANGED <<now, up, ttls, gen, cache, wlock, key, fetched, upq, missed, last>>
-Lock(g) == /\ pc[g] = "wantlock" /\ wlock[key[g]] = 0
-           /\ wlock' = [wlock EXCEPT ![key[g]] = g] /\ pc' = [pc EXCEPT ![g] = "locked"]
-           /\ UNCHANGED <<now, up, ttls, gen, cache, key, got, fetched, upq, missed, last>>
+               /\ UNCHANGED <<now, up, ttls, gen, nobj, objs, okey, olock, cache, key, ent, fetched, upq, upqAt, hit, cancelled, last>>
+Lock(g) == /\ pc[g] = "wantlock" /\ olock[ent[g]] = 0
+           /\ olock' = [olock EXCEPT ![ent[g]] = g] /\ pc' = [pc EXCEPT ![g] = "locked"]
+           /\ UNCHANGED <<now, up, ttls, gen, nobj, objs, okey, cache, key, ent, got, fetched, upq, upqAt, hit, cancelled, last>>
 Recheck(g) == /\ pc[g] = "locked"
-              /\ IF Valid(cache[key[g]], now)
-                 THEN /\ pc' = [pc EXCEPT ![g] = "ret"] /\ got' = [got EXCEPT ![g] = [kind |-> "ok", gen |-> cache[key[g]].gen, at |-> now, f |-> cache[key[g]].f]]
-                      /\ wlock' = [wlock EXCEPT ![key[g]] = 0]
-                 ELSE pc' = [pc EXCEPT ![g] = "fetch"] /\ UNCHANGED <<got, wlock>>
-              /\ UNCHANGED <<now, up, ttls, gen, cache, key, fetched, upq, missed, last>>
-\* upstream query: a failure removes the entry and is not cached
+              /\ IF Valid(objs[ent[g]], now)
+                 THEN /\ pc' = [pc EXCEPT ![g] = "ret"] /\ got' = [got EXCEPT ![g] = [kind |-> "ok", gen |-> objs[ent[g]].gen, at |-> now, f |-> objs[ent[g]].f]]
+                      /\ olock' = [olock EXCEPT ![ent[g]] = 0]
+                 ELSE pc' = [pc EXCEPT ![g] = "fetch"] /\ UNCHANGED <<got, olock>>
+              /\ UNCHANGED <<now, up, ttls, gen, nobj, objs, okey, cache, key, ent, fetched, upq, upqAt, hit, cancelled, last>>
+\* upstream query: a failure removes whatever is mapped under the key (cache.Remove(key)) and is not cached
 Fetch(g) == /\ pc[g] = "fetch"
-            /\ upq' = [upq EXCEPT ![g] = TRUE]
+            /\ upq' = [upq EXCEPT ![g] = TRUE] /\ upqAt' = [upqAt EXCEPT ![g] = now]
             /\ IF up THEN /\ fetched' = [fetched EXCEPT ![g] = [gen |-> gen[key[g]], ttls |-> ttls[key[g]][gen[key[g]]], f |-> now]]
-                          /\ pc' = [pc EXCEPT ![g] = "store"] /\ UNCHANGED <<cache, wlock, got>>
-               ELSE /\ cache' = [cache EXCEPT ![key[g]] = None] /\ wlock' = [wlock EXCEPT ![key[g]] = 0]
+                          /\ pc' = [pc EXCEPT ![g] = "store"] /\ UNCHANGED <<cache, olock, got>>
+               ELSE /\ cache' = [cache EXCEPT ![key[g]] = 0] /\ olock' = [olock EXCEPT ![ent[g]] = 0]
                     /\ got' = [got EXCEPT ![g] = [kind |-> "err", gen |-> -1, at |-> now, f |-> now]] /\ pc' = [pc EXCEPT ![g] = "ret"] /\ UNCHANGED fetched
-            /\ UNCHANGED <<now, up, ttls, gen, key, missed, last>>
-\* lifetime = the smallest TTL among ALL records of the response (0 = not cacheable); 300 s only for an empty response
+            /\ UNCHANGED <<now, up, ttls, gen, nobj, objs, okey, key, ent, hit, cancelled, last>>
+\* lifetime = the smallest TTL among ALL records of the response (0 = not cacheable); 300 s only for an empty response.
+\* The object is filled whether or not the map still holds it.
 Store(g) == /\ pc[g] = "store"
-            /\ cache' = [cache EXCEPT ![key[g]] = [exp |-> now + MinOf(fetched[g].ttls), gen |-> fetched[g].gen, f |-> fetched[g].f,
-                                                   min |-> MinOf(fetched[g].ttls)]]
-            /\ wlock' = [wlock EXCEPT ![key[g]] = 0]
+            /\ objs' = [objs EXCEPT ![ent[g]] = [exp |-> now + MinOf(fetched[g].ttls), gen |-> fetched[g].gen, f |-> fetched[g].f,
+                                                 min |-> MinOf(fetched[g].ttls)]]
+            /\ olock' = [olock EXCEPT ![ent[g]] = 0]
             /\ got' = [got EXCEPT ![g] = [kind |-> "ok", gen |-> fetched[g].gen, at |-> now, f |-> fetched[g].f]] /\ pc' = [pc EXCEPT ![g] = "ret"]
-            /\ UNCHANGED <<now, up, ttls, gen, key, fetched, upq, missed, last>>
-\* cache.Get / cache.Add are two steps (resolve.go:458-462): calls that find no entry for the key each create their own
-\* entry object, so they do not exclude each other: such a call may go upstream on its own, and its entry may or may not
-\* end up as the one in the cache. (Harmless: no stale data; only a duplicate query.)
-PrivateFetch(g) ==
-  /\ pc[g] \in {"fast", "wantlock"} /\ missed[g]
-  /\ upq' = [upq EXCEPT ![g] = TRUE]
-  /\ IF up THEN LET e == [exp |-> now + MinOf(ttls[key[g]][gen[key[g]]]), gen |-> gen[key[g]], f |-> now, min |-> MinOf(ttls[key[g]][gen[key[g]]])] IN
-                 /\ got' = [got EXCEPT ![g] = [kind |-> "ok", gen |-> gen[key[g]], at |-> now, f |-> now]]
-                 /\ cache' \in {cache, [cache EXCEPT ![key[g]] = e]}
-           ELSE /\ got' = [got EXCEPT ![g] = [kind |-> "err", gen |-> -1, at |-> now, f |-> now]]
-                /\ cache' \in {cache, [cache EXCEPT ![key[g]] = None]}
-  /\ pc' = [pc EXCEPT ![g] = "ret"]
-  /\ UNCHANGED <<now, up, ttls, gen, wlock, key, fetched, missed, last>>
-
-\* the caller's context ends while the upstream query is outstanding: the lookup fails like any failed query (the entry is
-\* dropped, nothing is cached), and says nothing about the data
-Abandon(g) == /\ pc[g] = "fetch"
-              /\ cache' = [cache EXCEPT ![key[g]] = None] /\ wlock' = [wlock EXCEPT ![key[g]] = 0]
+            /\ UNCHANGED <<now, up, ttls, gen, nobj, okey, cache, key, ent, fetched, upq, upqAt, hit, cancelled, last>>
+\* the caller's context has ended and the upstream query fails for that reason: the lookup fails like any failed query (the
+\* mapping is dropped, nothing is cached), and says nothing about the data. Only a call that got as far as querying can end so
+\* (before the query reached the server, or - "store" - with the server's answer on its way).
+Abandon(g) == /\ pc[g] \in {"fetch", "store"} /\ cancelled[g]
+              /\ cache' = [cache EXCEPT ![key[g]] = 0] /\ olock' = [olock EXCEPT ![ent[g]] = 0]
               /\ got' = [got EXCEPT ![g] = [kind |-> "timeout", gen |-> -1, at |-> now, f |-> now]] /\ pc' = [pc EXCEPT ![g] = "ret"]
-              /\ UNCHANGED <<now, up, ttls, gen, key, fetched, upq, missed, last>>
-AbandonPrivate(g) == /\ pc[g] \in {"fast", "wantlock"} /\ missed[g]
-                     /\ cache' \in {cache, [cache EXCEPT ![key[g]] = None]}
-                     /\ got' = [got EXCEPT ![g] = [kind |-> "timeout", gen |-> -1, at |-> now, f |-> now]] /\ pc' = [pc EXCEPT ![g] = "ret"]
-                     /\ UNCHANGED <<now, up, ttls, gen, wlock, key, fetched, upq, missed, last>>
+              /\ UNCHANGED <<now, up, ttls, gen, nobj, objs, okey, key, ent, fetched, upq, upqAt, hit, cancelled, last>>
 
 Return(g) == /\ pc[g] = "ret" /\ pc' = [pc EXCEPT ![g] = "idle"]
              /\ last' = [last EXCEPT ![g] = [kind |-> got[g].kind, gen |-> got[g].gen, upq |-> upq[g], at |-> now, key |-> key[g]]]
-             /\ UNCHANGED <<now, up, ttls, gen, cache, wlock, key, got, fetched, upq, missed>>
+             /\ UNCHANGED <<now, up, ttls, gen, nobj, objs, okey, olock, cache, key, ent, got, fetched, upq, upqAt, hit, cancelled>>
 
 \* ---- environment
 Advance == /\ now < MaxNow /\ \A g \in Gs : pc[g] # "store" /\ now' = now + 1
-           /\ UNCHANGED <<up, ttls, gen, cache, wlock, pc, key, got, fetched, upq, missed, last>>
+           /\ UNCHANGED <<up, ttls, gen, nobj, objs, okey, olock, cache, pc, key, ent, got, fetched, upq, upqAt, hit, cancelled, last>>
 Change(k) == /\ gen[k] < MaxGen /\ gen' = [gen EXCEPT ![k] = gen[k] + 1]
-             /\ UNCHANGED <<now, up, ttls, cache, wlock, pc, key, got, fetched, upq, missed, last>>
-Toggle == /\ up' = ~up /\ UNCHANGED <<now, ttls, gen, cache, wlock, pc, key, got, fetched, upq, missed, last>>
+             /\ UNCHANGED <<now, up, ttls, nobj, objs, okey, olock, cache, pc, key, ent, got, fetched, upq, upqAt, hit, cancelled, last>>
+Toggle == /\ up' = ~up /\ UNCHANGED <<now, ttls, gen, nobj, objs, okey, olock, cache, pc, key, ent, got, fetched, upq, upqAt, hit, cancelled, last>>
+Cancel(g) == /\ pc[g] # "idle" /\ ~cancelled[g] /\ cancelled' = [cancelled EXCEPT ![g] = TRUE]
+             /\ UNCHANGED <<now, up, ttls, gen, nobj, objs, okey, olock, cache, pc, key, ent, got, fetched, upq, upqAt, hit, last>>
+\* the map drops an entry to make room (2Q cache of 32 entries by default); callers holding the object go on with it
+Evict(k) == /\ Evicts /\ cache[k] # 0 /\ cache' = [cache EXCEPT ![k] = 0]
+            /\ UNCHANGED <<now, up, ttls, gen, nobj, objs, okey, olock, pc, key, ent, got, fetched, upq, upqAt, hit, cancelled, last>>
 
-GoStep(g) == (\E k \in Keys : Call(g, k)) \/ FastRead(g) \/ Lock(g) \/ Recheck(g) \/ Fetch(g) \/ Store(g) \/ PrivateFetch(g) \/ Abandon(g) \/ AbandonPrivate(g) \/ Return(g)
-Next == (\E g \in Gs : GoStep(g)) \/ Advance \/ (\E k \in Keys : Change(k)) \/ Toggle
+GoStep(g) == (\E k \in Keys : Call(g, k)) \/ Get(g) \/ Add(g) \/ FastRead(g) \/ Lock(g) \/ Recheck(g) \/ Fetch(g) \/ Store(g) \/ Abandon(g) \/ Return(g) \/ Cancel(g)
+Next == (\E g \in Gs : GoStep(g)) \/ Advance \/ (\E k \in Keys : Change(k) \/ Evict(k)) \/ Toggle
 Spec == Init /\ [][Next]_vars
 
 \* ---- properties
 \* an entry never outlives the smallest TTL of the response it came from
-EntryFresh == \A k \in Keys : cache[k] # None => cache[k].exp <= cache[k].f + MinOf(ttls[k][cache[k].gen])
+EntryFresh == \A o \in Objs : objs[o] # None => objs[o].exp <= objs[o].f + MinOf(ttls[okey[o]][objs[o].gen])
 \* an answer is returned either by the call that fetched it, or while younger than that smallest TTL
 Fresh == \A g \in Gs : (pc[g] = "ret" /\ got[g].kind = "ok") =>
             \/ got[g].at = got[g].f /\ upq[g]                                         \* the fetching call itself
             \/ got[g].at < got[g].f + MinOf(ttls[key[g]][got[g].gen])                  \* or younger than the smallest TTL
 NoCachedFailure == \A g \in Gs : (pc[g] = "ret" /\ got[g].kind = "err") => upq[g]
-\* a call that starts when the entry is expired (or absent) asks upstream before returning, unless another call refreshed it meanwhile
-MutualExclusion == \A a, b \in Gs : (a # b /\ pc[a] \in {"locked", "fetch", "store"} /\ pc[b] \in {"locked", "fetch", "store"}) => key[a] # key[b]
-LockHeld == \A g \in Gs : pc[g] \in {"locked", "fetch", "store"} <=> wlock[key[g]] = g
+Held == {"locked", "fetch", "store"}
+MutualExclusion == \A a, b \in Gs : (a # b /\ pc[a] \in Held /\ pc[b] \in Held) => ent[a] # ent[b]
+LockHeld == /\ \A g \in Gs : pc[g] \in Held => ent[g] \in Objs /\ olock[ent[g]] = g
+            /\ \A o \in Objs : olock[o] # 0 => pc[olock[o]] \in Held /\ ent[olock[o]] = o
+\* an object only ever serves the key it was created for
+KeyOK == /\ \A k \in Keys : cache[k] # 0 => cache[k] \in Objs /\ okey[cache[k]] = k
+         /\ \A g \in Gs : pc[g] \notin {"idle", "get", "add"} => ent[g] \in Objs /\ okey[ent[g]] = key[g]
+\* "within the TTL serves repeated lookups from its cache": a call that found a valid entry in the map does not ask upstream
+\* before that entry expires - whatever the other callers, failures, evictions and cancellations do meanwhile
+ServedFromCache == \A g \in Gs : (pc[g] \in {"store", "ret"} /\ upq[g] /\ hit[g] >= 0) => upqAt[g] >= hit[g]
 TS_full == { <<0>>, <<1>>, <<2>>, <<0, 2>>, <<2, 1>>, <<3, 0, 2>> }     \* (a response without records has no TTL: caching it or not is unspecified)
 TS_two == { <<2>>, <<0>> }
 TS_q == { <<1>>, <<0, 2>>, <<2, 1>> }
-ViewNoLast == <<now, up, ttls, gen, cache, wlock, pc, key, got, fetched, upq, missed>>
+\* model-checking reductions (sound): the contents of an object nobody can reach any more, and the history variables of a call
+\* once they can no longer matter, are left out of the state's identity; a context is ended only where that is looked at
+Reachable(o) == (\E k \in Keys : cache[k] = o) \/ (\E g \in Gs : pc[g] \notin {"idle", "get", "add"} /\ ent[g] = o)
+ViewNoLast == <<now, up, ttls, gen, nobj, [o \in Objs |-> IF Reachable(o) THEN objs[o] ELSE None], olock, cache, pc, key,
+                [g \in Gs |-> IF pc[g] \in {"idle", "get", "add"} THEN 0 ELSE ent[g]], got, fetched, upq,
+                [g \in Gs |-> IF upq[g] /\ hit[g] >= 0 THEN upqAt[g] ELSE 0], hit, cancelled>>
+CancelLate == \A g \in Gs : (cancelled'[g] /\ ~cancelled[g]) => pc[g] \in {"fetch", "store"}
 TypeOK == now \in 0..MaxNow
+ObjBound == nobj <= MaxObj
 =============================================================================
